@@ -754,6 +754,20 @@ func init() {
 		return tFalse
 	}
 
+	// atomic accesses are synchronised by definition: not recorded as shared
+	// accesses of a trace (a package-level counter is not a data race)
+	for name, f := range intrinsics {
+		if strings.HasPrefix(name, "sync/atomic.") {
+			f := f
+			intrinsics[name] = func(fr *frame, args []value) value {
+				saved := fr.r.tracing
+				fr.r.tracing = false
+				defer func() { fr.r.tracing = saved }()
+				return f(fr, args)
+			}
+		}
+	}
+
 	// sort.Slice: identity permutation; the comparator is exercised once per
 	// adjacent pair (stated model: order is not part of any property).
 	intrinsics["sort.Slice"] = func(fr *frame, args []value) value {
